@@ -11,7 +11,7 @@ package oidc
 //@ func (*idTokenVerifier).Verify
 //@ prop C04 C14
 //@ ensures[accepted-only-if-go-oidc-verified-and-audience-ok] ret1 == nil ==> ret1(Verify) == nil && recv(Verify) == v.verifier
-//@     && arg(Verify, 1) == rawIDToken && ret0 == ret0(Verify) && called(verifyAudience) && ret0(verifyAudience)
+//@     && arg(Verify, 2) == rawIDToken && ret0 == ret0(Verify) && called(verifyAudience) && ret0(verifyAudience)
 //@     && arg(verifyAudience, 1) == ret0(Verify)
 //@ ensures[error-means-no-token] ret0 == nil || ret1 == nil
 
@@ -33,7 +33,5 @@ package oidc
 //@ func (*idTokenVerifier).interfaceSliceToString
 //@ safety
 //@ prop C14 C19
+//@ ensures[error-means-nothing] ret1 != nil ==> ret0 == nil
 
-//@ func NewVerifier
-//@ prop C04
-//@ ensures[client-id-is-an-allowed-audience] inmap(result.allowedAudiences, vo.ClientID)
